@@ -1,6 +1,7 @@
 import PhysisModel.Proofs.C18Hdr
 import PhysisModel.Proofs.C18Fmt
 import PhysisModel.Proofs.C18Dat
+import PhysisModel.Proofs.C18Arc
 /-!
 # C18 — damaged game data is rejected without crashing
 
@@ -124,6 +125,29 @@ theorem c18_inflate_balanced (initOk streamEnd : Bool) (h : initOk = true) :
 theorem c18_inflate_unfixed_witness :
     (C18Dat.decompressTraceUnfixed true false).1.count .end_ = 0 := by decide
 example : (C18Dat.decompressTrace true false).1 = [.init, .inflate, .end_] := by decide
+
+/-- `SqPackIndex::from_existing`: the index grammar, for every file content -/
+theorem c18_index_total (w : Bytes) : ¬ faults (C18Arc.index w) := (PGood.run C18Arc.indexFile_good w).1
+theorem c18_index_alloc (w : Bytes) : (C18Arc.index w).peak ≤ 64 * w.length + 16777216 :=
+  (PGood.run C18Arc.indexFile_good w).2
+/-- the slicing in `calculate_hash` (`exists`, `find_entry`), repaired by `fixes/C18-08`: every
+lower-cased path, with or without a folder -/
+theorem c18_index_hash_total (path : Bytes) : ¬ faults (C18Arc.hashSplit path) :=
+  (C18Arc.hashSplit_good 0 path).1
+/-- pinned commit: `panic!` for a path without `/` (`"a"`) -/
+theorem c18_index_hash_unfixed_witness : faults (C18Arc.hashSplitUnfixed [0x61]) :=
+  faults_of_isFault (by decide)
+
+/-- repository discovery (`reload_repositories` + `from_existing_expansion`), repaired by
+`fixes/C18-09`: every directory name (any bytes) is a repository or is skipped -/
+theorem c18_repo_total (name : Bytes) : ¬ faults (C18Arc.expansionNumber name) :=
+  (C18Arc.expansionNumber_good 0 name).1
+/-- pinned commit: the one-letter directory `a` under `sqpack` panics in `name[2..3]`, and a
+directory whose name is not UTF-8 (`FF`) in `to_str().unwrap()` -/
+theorem c18_repo_unfixed_witness :
+    faults (C18Arc.expansionNumberUnfixed [0x61]) ∧ faults (C18Arc.expansionNumberUnfixed [0xFF]) :=
+  ⟨faults_of_isFault (by decide), faults_of_isFault (by decide)⟩
+example : (C18Arc.expansionNumber [0x65, 0x78, 0x31]).isOk = true := by decide
 
 /-- non-vacuity: the models accept well-formed headers (a 16-byte `uldh`/`0100` header parses) -/
 example : (C18Hdr.uld [0x75, 0x6c, 0x64, 0x68, 0x30, 0x31, 0x30, 0x30, 1, 0, 0, 0, 2, 0, 0, 0]).isOk = true := by
